@@ -251,7 +251,7 @@ Proof.
     destruct (uo_pushed _); [apply passive_refl|].
     eapply passive_trans; [apply passive_upd_up|apply passive_enq_all].
   - destruct (Nat.ltb u (w_nup w) && negb (uo_closed (w_up w u))); [|apply passive_refl].
-    destruct (c_group (w_cl w (uo_owner (w_up w u)))); [|apply passive_refl].
+    destruct (c_group (w_cl w (uo_owner (w_up w u)))); [|apply passive_upd_up].
     unfold new_timer. eapply passive_trans; [apply passive_upd_up|].
     eapply passive_trans; [apply passive_upd_up|apply passive_set_timers].
 Qed.
